@@ -6,6 +6,7 @@ import Bourse.Model.Ops
 import Bourse.Lemmas.Lifecycle
 import Bourse.Lemmas.RefTimes
 import Bourse.Lemmas.NoOverflow
+import Bourse.Lemmas.PlaceCancelFinal
 
 namespace Bourse.Props.C04
 open Bourse
@@ -140,5 +141,30 @@ theorem open_orders_have_no_end_time_valid (t0 tick : Nat) (trading : Bool) (ops
     ∀ (id : Nat) (e : Entry), ((Book.new t0 tick trading).run ops).orders[id]? = some e →
       isTerminal e.order.status = false → e.order.endt = MAXT :=
   open_orders_have_no_end_time t0 tick trading h.tick_pos ops h.ops_valid h.noFault
+
+/-! ### Placement and cancellation are final -/
+
+/-- **Placing a New order leaves it non-New** (Active, Filled, Cancelled or Rejected), in every state
+satisfying the invariant. -/
+theorem placing_leaves_new {b : Book} (h : Inv b) (id : Nat) (e : Entry) (he : b.orders[id]? = some e)
+    (hn : e.order.status = .new) (hnf : (b.step (.place id)).1.faulted = false) :
+    ∃ e', (b.step (.place id)).1.orders[id]? = some e' ∧ e'.order.status ≠ .new :=
+  place_not_new h id e he hn hnf
+
+/-- **A cancelled order is never live again**: cancelling an Active order makes it Cancelled with the
+book time as end time, and whatever valid fault-free operations follow — placements of it, further
+cancels, modifications, clock changes, trading switches, reloads — its record stays exactly that. So an
+agent that cancelled its order while it saw it Active holds no live order from then on. -/
+theorem cancelled_order_never_live_again {b : Book} (h : Inv b) (id : Nat) (e : Entry) (he : b.orders[id]? = some e)
+    (ha : e.order.status = .active) (hnf : (b.step (.cancel id)).1.faulted = false)
+    (cont : List Op) (hv : ∀ op ∈ cont, ValidOp op) (hnf' : NoFault (b.step (.cancel id)).1 cont) :
+    ∃ e', ((b.step (.cancel id)).1.run cont).orders[id]? = some e' ∧
+      e'.order = { e.order with status := .cancelled, endt := b.t } := by
+  obtain ⟨e1, he1, h1⟩ := cancel_active_final h id e he ha hnf
+  have hinv := inv_step h (.cancel id) trivial hnf
+  obtain ⟨e2, he2, hadv⟩ := lifecycle_run hinv cont hv hnf' id e1 he1
+  refine ⟨e2, he2, ?_⟩
+  have ht : isTerminal e1.order.status = true := by rw [h1]; rfl
+  rw [hadv.2.2.2.2.2 ht, h1]
 
 end Bourse.Props.C04
